@@ -2,6 +2,7 @@
 // INSTANCE is set by a prelude file: "map" | "set" | "symtab".
 var m, iters, sym = {}, objKeys = {};
 var LONG = "aaaaaaaaaaaaaaaaaaaaaaaa";
+var LONGU = "ключ-длиннее-шестнадцати-байт-ℵ";   // non-ASCII and > 16 bytes: imported lazily, unscanned until first use
 function key(k, r) {
   switch (k) {
   case "n1": return r === "a" ? 1 : (r === "b" ? parseFloat("1") : Math.sqrt(1));
@@ -10,6 +11,7 @@ function key(k, r) {
   case "nan": return r === "a" ? NaN : -(0/0);
   case "sl": return r === "a" ? LONG : __goString(LONG);   // > 16 bytes: lazily scanned import
   case "su": return r === "a" ? "éℵ" : __goString("éℵ");
+  case "slu": return r === "a" ? LONGU : __goString(LONGU);
   case "o1": return objKeys.o1 || (objKeys.o1 = {});
   case "y1": return sym.y1 || (sym.y1 = Symbol("y1"));
   case "big": return r === "a" ? 9007199254740992 : 9007199254740991 + 1;
@@ -28,6 +30,7 @@ function kname(x) {
   if (x === "a") return "s1";
   if (x === LONG) return "sl";
   if (x === "éℵ") return "su";
+  if (x === LONGU) return "slu";
   if (x === objKeys.o1) return "o1";
   if (x === sym.y1) return "y1";
   return "?" + String(x);
